@@ -901,3 +901,152 @@ def run(ctx, rep):  # noqa: F811
     _old_run2(ctx, rep)
     rep.rule("R15.11", "sibling agreement: statements shared by the three truncated-CG solvers are identical (a statement that two siblings spell identically and the third differs from by a small edit is reported)")
     r1511(ctx, rep)
+
+
+# ---------------------------------------------------------------------------
+def _index_names(e):
+    """names read inside the index of any subscript of e"""
+    out = set()
+    for sub in ast.walk(e):
+        if isinstance(sub, ast.Subscript):
+            for x in ast.walk(sub.slice):
+                if isinstance(x, ast.Name):
+                    out.add(x.id)
+    return out
+
+
+def stale_masked_reductions(fnode, cfg):
+    """[(loop, var, def stmt, mask, use node, fresh partner)]: `var` is
+    computed before the loop from operands restricted to the index set
+    `mask`, the loop redefines `mask`, never recomputes `var`, and combines it
+    with quantities recomputed in the loop over the current `mask`."""
+    from ..cfg import defs_of
+    rd = cfg.reaching_defs()
+    out = []
+    for loop in ast.walk(fnode):
+        if not isinstance(loop, (ast.While, ast.For)):
+            continue
+        body = {cfg.by_ast[id(s)] for s in ast.walk(loop) if id(s) in cfg.by_ast and s is not loop}
+        defd = {}
+        for nid in body:
+            for v, st in defs_of(cfg.nodes[nid]).items():
+                defd.setdefault(v, set()).add(nid)
+        for nid in sorted(body):
+            nd = cfg.nodes[nid]
+            e = nd.expr()
+            if not isinstance(e, ast.AST):
+                continue
+            names = [x for x in ast.walk(e) if isinstance(x, ast.Name) and isinstance(x.ctx, ast.Load)]
+            for x in names:
+                ds = rd.get(nid, {}).get(x.id, frozenset())
+                if not ds or (ds & body) or cfg.entry in ds:
+                    continue
+                for d in ds:
+                    st = cfg.nodes[d].ast if cfg.nodes[d].kind == "stmt" else None
+                    if not isinstance(st, ast.Assign) or not (len(st.targets) == 1 and isinstance(st.targets[0], ast.Name)):
+                        continue
+                    masks = _index_names(st.value) & set(defd)
+                    if not masks:
+                        continue
+                    # partner: another name in the same expression, defined in
+                    # the loop from operands restricted to the same mask
+                    for y in names:
+                        if y.id == x.id:
+                            continue
+                        dy = rd.get(nid, {}).get(y.id, frozenset())
+                        if not dy or not (dy <= body):
+                            continue
+                        for d2 in dy:
+                            st2 = cfg.nodes[d2].ast if cfg.nodes[d2].kind == "stmt" else None
+                            if isinstance(st2, ast.Assign) and (_index_names(st2.value) & masks):
+                                out.append((loop, x.id, st, sorted(masks)[0], nd, y.id))
+                                break
+    return out
+
+
+_STALE_SELFTEST = '''
+def f(step, grad, free):
+    step_sq = step[free] @ step[free]
+    while free.any():
+        grad_sq = grad[free] @ grad[free]
+        t = step_sq * grad_sq
+        free = shrink(free, t)
+    return step
+'''
+
+
+def r1512(ctx, rep):
+    from ..cfg import CFG
+    # positive control: the rule must fire on a minimal stale example
+    t = ast.parse(_STALE_SELFTEST).body[0]
+    from ..loader import set_parents
+    set_parents(t)
+    if not stale_masked_reductions(t, CFG(t)):
+        raise AnalysisError("R15.12 self-test: the stale-reduction rule does not fire on its positive control")
+    n = 0
+    for q in PUBLIC + HELPERS:
+        f = ctx.func(q)
+        hits = stale_masked_reductions(f.node, ctx.cfg(f))
+        loops = [l for l in ast.walk(f.node) if isinstance(l, (ast.While, ast.For))]
+        n += len(loops)
+        seen = set()
+        for loop, var, st, mask, use, partner in hits:
+            if (var, st.lineno) in seen:
+                continue
+            seen.add((var, st.lineno))
+            rep.bad("R15.12", f"{f.local}:{st.lineno} `{var}`")
+            rep.finding("R15.12", f, norm(st)[:100], st.lineno,
+                        f"`{var}` is computed once before the loop at line {loop.lineno} over the index set `{mask}`, but the loop changes `{mask}` and combines the stale `{var}` "
+                        f"with `{partner}` recomputed over the current set (line {use.line}): the rotation / step-length formula is no longer consistent and the step can leave the trust region")
+        if not hits:
+            rep.ok("R15.12", f"{f.local}: {len(loops)} loop(s), no reduction over a changing index set is hoisted out of its loop")
+    if n < 8:
+        raise AnalysisError(f"only {n} loops scanned in the solvers (floor 8)")
+
+
+def r1513(ctx, rep):
+    """rank-revealing factorisation: when the number of active constraints is
+    estimated from the diagonal of R, the QR factorisation must be pivoted"""
+    n = 0
+    for f in ctx.repo.funcs.values():
+        if not f.module.name.startswith("cobyqa.subsolvers") and f.module.name != "cobyqa.framework":
+            continue
+        for node in ast.walk(f.node):
+            if not (isinstance(node, ast.Assign) and isinstance(node.value, ast.Call) and _short(node.value) == "qr"):
+                continue
+            tg = node.targets[0]
+            if not isinstance(tg, (ast.Tuple, ast.List)) or len(tg.elts) < 2 or not isinstance(tg.elts[1], ast.Name):
+                raise AnalysisError(f"{f.local}:{node.lineno} result of qr() is not unpacked into (q, r, ..): shape not understood")
+            r = tg.elts[1].id
+            # the triangular factor is only ever used to estimate the rank
+            # (directly or in a helper); a factor that is never read means no
+            # rank is derived from this factorisation
+            reads = [x for x in ast.walk(f.node) if isinstance(x, ast.Name) and x.id == r and isinstance(x.ctx, ast.Load)]
+            if not reads:
+                continue
+            n += 1
+            kw = {k.arg: k.value for k in node.value.keywords}
+            piv = kw.get("pivoting")
+            desc = f"{f.local}:{node.lineno} rank estimated from the triangular factor `{r}` of `qr(...)`"
+            if isinstance(piv, ast.Constant) and piv.value is True:
+                rep.ok("R15.13", desc + " with pivoting=True")
+            elif piv is not None and not isinstance(piv, ast.Constant):
+                raise AnalysisError(f"{f.local}:{node.lineno} pivoting={norm(piv)} is not a literal")
+            else:
+                rep.bad("R15.13", desc)
+                rep.finding("R15.13", f, "qr(..) without pivoting=True", node.lineno,
+                            f"the number of active constraints is counted from the triangular factor `{r}`, which is only valid for a rank-revealing (column-pivoted) QR factorisation: "
+                            "with dependent constraint rows the trailing columns of Q are not a basis of the null space and the step leaves the equality constraints / violates active inequalities")
+    if n < 2:
+        raise AnalysisError(f"only {n} rank-revealing QR factorisations found (floor 2)")
+
+
+_old_run15b = run
+
+
+def run(ctx, rep):  # noqa: F811
+    _old_run15b(ctx, rep)
+    rep.rule("R15.12", "no reduction over an index set that the loop changes is hoisted out of the loop and mixed with reductions over the current set")
+    rep.rule("R15.13", "QR factorisations whose R diagonal is used to count the active constraints are column-pivoted")
+    r1512(ctx, rep)
+    r1513(ctx, rep)
